@@ -333,6 +333,7 @@ func TestC18(t *testing.T) {
 	// (4) random search
 	if !failed {
 		t.Run("random", rapid.MakeCheck(func(rt *rapid.T) {
+			noiseCall(rt) // one case in three is preceded by an unrelated, mostly failing call (see noise_test.go)
 			s := c18GenString(rt)
 			msg, v := c18Check(s)
 			a := v.accepted()
